@@ -99,6 +99,15 @@ class ClassInfo:
             elif isinstance(n, ast.AnnAssign) and isinstance(n.target, ast.Name) and n.value is not None:
                 self.class_attrs[n.target.id] = n.value
 
+        # name = other_method (class body): the function defined in THIS class is bound under a second name -- a
+        # subclass that overrides other_method does not change what `name` calls
+        for n in node.body:
+            if isinstance(n, ast.Assign) and len(n.targets) == 1 and isinstance(n.targets[0], ast.Name) and \
+                    isinstance(n.value, ast.Name) and n.value.id in self.methods and n.targets[0].id not in self.methods:
+                alias = copy.copy(self.methods[n.value.id])
+                alias.name = n.targets[0].id
+                self.methods[alias.name] = alias
+                del self.class_attrs[n.targets[0].id]
         # name = property(getter) / property(fget=getter): the getter is reachable under the public name
         for n in node.body:
             if isinstance(n, ast.Assign) and len(n.targets) == 1 and isinstance(n.targets[0], ast.Name) and \
